@@ -58,10 +58,15 @@ NOT_NAME_KEYWORDS = {
 }
 
 
+def quote_name(name):
+    # a back-quote inside the name is written doubled
+    return '`' + name.replace('`', '``') + '`'
+
+
 def name_to_string(name):
     # for the places where a name is printed without quotes whenever it can be read back so
     if not no_wrap_identifier_regex.fullmatch(name) or name.upper() in NOT_NAME_KEYWORDS:
-        name = f'`{name}`'
+        name = quote_name(name)
     return name
 
 
@@ -95,7 +100,7 @@ class Identifier(ASTNode):
                     or
                     part.upper() in reserved_words
                 ):
-                    part = f'`{part}`'
+                    part = quote_name(part)
 
             out_parts.append(part)
         return '.'.join(out_parts)
